@@ -189,6 +189,7 @@ func GenDef(r *rand.Rand, p *Profile) Cfg {
 			}
 		}
 		o.AliasSplit = len(o.Aliases) > 1 && chance(r, 0.4)
+		o.ModLast = chance(r, 0.3)
 		switch kind {
 		case "bool":
 			o.DefB = chance(r, 0.3)
